@@ -31,6 +31,19 @@ def main():
         # which locate the package relative to their own file import the scratch tree
         os.makedirs(f"{wt}/_seed", exist_ok=True)
         shutil.copytree(src, f"{wt}/_seed/{k}")
+        # a demo that pins the path of its author's scratch worktree is made relative to the tree it runs in
+        import re
+        dp = f"{wt}/_seed/{k}/demo.py"
+        txt = open(dp).read()
+        new = re.sub(r"(?m)^(\s*)assert [^\n]*/tmp/seed\d_C\d\d[^\n]*$", r"\1pass  # (assertion pinning the author's scratch path removed)", txt)
+        new = re.sub(r"""["']/tmp/seed\d_C\d\d/?["']""", "(os.getcwd() + os.sep)", new)
+        if new != txt:
+            if not re.search(r"^import os|^import os,|^import .*\bos\b", new, re.M):
+                new = "import os\n" + new
+            open(dp, "w").write(new)
+            src_demo_rewritten = new
+        else:
+            src_demo_rewritten = None
         d0 = sh(f"cd {wt} && /venv/bin/python _seed/{k}/demo.py")
         ran.append(f"unchanged tree: demo.py exit {d0.returncode}")
         r = sh(f"git -C {wt} apply {src}/patch.diff")
@@ -53,6 +66,8 @@ def main():
         for f in ("patch.diff", "demo.py", "notes.txt"):
             if os.path.exists(os.path.join(src, f)):
                 shutil.copy(os.path.join(src, f), os.path.join(dst, f))
+        if src_demo_rewritten is not None:
+            open(os.path.join(dst, "demo.py"), "w").write(src_demo_rewritten)
         json.dump(dict(id=sid, property=prop, needs_to_manifest=needs, produced_by="independent sub-agent given only the property text and a scratch worktree",
                        confirmed=ran, repo_head=sh("git -C /repo rev-parse --short HEAD").stdout.strip()),
                   open(os.path.join(dst, "meta.json"), "w"), indent=1)
